@@ -647,7 +647,7 @@ def main():
                                                  'print("smB/sc:", vb, "expected [0, 7, 14, 21]")\nsys.stdout.flush()\nos._exit(1 if vb != [0.0, 7.0, 14.0, 21.0] else 0)\n')
                 failures.append(dict(what='one scenarios dictionary registered with two managers: the second manager (base constant a=7) reports s = %r, expected [0, 7, 14, 21] '
                                           '(add_scenarios wrote the first manager\'s base constant into the caller\'s dictionary)' % (vb,),
-                                     script=write_replay('C07', 'C07-shared-dictionary-base-values', body), known='C07-shared-dictionary-base-values'))
+                                     script=write_replay('C07', 'shared-dictionary', body), known=None))
         except Exception:
             pass
         # the scenario file channel (bounded, not under contract)
